@@ -1,6 +1,6 @@
 """C13 — relation, nested-dict and heap-list constructors build exactly the given edges."""
 from __future__ import annotations
-import itertools, random
+import itertools, random, zlib
 import core
 from core import hx
 from runner import Case
@@ -211,6 +211,13 @@ def oracle(case):
             off = _twoproc.refusal_differs_off("props.C13:worker_impl", case.data, here, case.line, every=4)
             if off is not None:
                 msgs.append(f"with BIGTREE_CONF_ASSERTIONS switched off the input is no longer refused as {here}: {off[:120]}")
+        elif case.data["fn"] == "heap" and len(case.data["xs"]) <= 120 and zlib.crc32(case.line.encode()) % 2 == 0:
+            # the heap placement is no matter of the optional type / loop checks either: the same list in the interpreter
+            # started with BIGTREE_CONF_ASSERTIONS="" gives the same tree
+            from props import _twoproc
+            off = _twoproc.call("off", "props.C13:worker_impl", case.data)
+            if off != here:
+                msgs.append(f"with BIGTREE_CONF_ASSERTIONS switched off list_to_binarytree builds another tree: {off[:160]} vs {here[:160]}")
     return msgs
 
 
